@@ -30,11 +30,12 @@ UNIT = {
 SEQ = {
     "C02": dict(focus=["kv"], classes=["kv"], profiles=["mixed", "binary", "layers", "fanout", "drain", "long"]),
     "C03": dict(focus=["scan"], classes=["scan"], profiles=["layers", "mixed", "binary", "fanout", "long"]),
-    "C05": dict(focus=["scannv", "getnv", "dump"], classes=["scannv", "getnv"], profiles=["layers", "mixed", "fanout", "binary"]),
+    "C05": dict(focus=["scannv", "getnv", "dump", "phantom"], classes=["scannv", "getnv", "phantom"], profiles=["layers", "mixed", "fanout", "binary"]),
     "C08": dict(focus=["dump", "walker"], classes=["walker", "kv", "scan", "iscan"], profiles=["fanout", "drain", "layers", "mixed", "binary"]),
     "C10": dict(focus=["iscan"], classes=["iscan"], profiles=["layers", "mixed", "binary", "fanout", "long"]),
-    "C11": dict(focus=["balance"], classes=["balance"], profiles=["mixed", "drain", "layers", "long"]),
-    "C12": dict(focus=["putinfo", "dump"], classes=[], profiles=["fanout", "layers", "mixed", "drain"]),
+    "C11": dict(focus=["balance"], classes=["balance"], profiles=["mixed", "drain", "layers", "long", "cycles"]),
+    "C16": dict(focus=["session", "storage", "balance"], classes=["cycle", "session", "storage", "balance", "kv"], profiles=["cycles"]),
+    "C12": dict(focus=["putinfo", "dump", "vchg"], classes=["vchg"], profiles=["fanout", "layers", "mixed", "drain"]),
     "C13": dict(focus=["storage"], classes=["storage"], profiles=["mixed", "binary"]),
     "C20": dict(focus=["mem", "dump"], classes=["mem"], profiles=["fanout", "layers", "mixed", "long", "drain"]),
 }
@@ -382,6 +383,96 @@ def check_sched(prop, tier, seed, replay_path=None):
     return rc
 
 
+def check_c14(tier, seed, replay_path=None):
+    """sessions: real thread_info_table under the scheduler for several capacities; history oracle
+    + the Lean trace acceptor of Proto/Session"""
+    t0 = time.time()
+    prop = "C14"
+    lean = lean_part(prop, tier)
+    caps = [2, 8] if tier == "quick" else [1, 2, 3, 8]
+    nwl = 12 if tier == "quick" else 120
+    runs = 25 if tier == "quick" else 100
+    fails = []
+    cov = {"sched_evaluations": 0, "capacities": caps, "model_events": 0, "enters": 0, "max_sessions_results": 0, "cas_failures": 0, "sched_steps": 0}
+    sample = []
+    if replay_path:
+        rp = json.load(open(replay_path))
+        caps, nwl = [rp["capacity"]], 0
+    for cap in caps:
+        defs = dict(schedeng.SCHED_DEFINES, YAKUSHIMA_MAX_PARALLEL_SESSIONS=str(cap))
+        binary, err = vlib.build_harness("scheddrv", defs)
+        if binary is None:
+            fails.append({"kind": "build", "detail": err, "found": False, "capacity": cap})
+            continue
+
+        def one(sd):
+            text, pre, meta = schedeng.make_workload(sd, "session%d" % cap)
+            rc, out, err2 = schedeng.run_workload(binary, text, runs, sd * 100, "random", trace=True)
+            res = {"text": text, "fails": [], "n": 0, "steps": 0, "stats": {}}
+            rr = hist.parse(out)
+            res["n"] = len(rr)
+            for r in rr:
+                try:
+                    res["steps"] += int(r.header.split()[5])
+                except (IndexError, ValueError):
+                    pass
+                for cls, msg in hist.check_sessions(r, cap):
+                    res["fails"].append((cls, msg, r.sched, True))
+                if r.stuck:
+                    res["fails"].append(("progress", r.header, r.sched, True))
+            m = subprocess.run([vlib.YAKMODEL, "sess", str(cap)], input=out, capture_output=True, text=True)
+            for l in m.stdout.splitlines():
+                if l.startswith("DIFF"):
+                    res["fails"].append(("acceptor", l[:400], [], False))
+                elif l.startswith("STATS"):
+                    for kv in l.split()[1:]:
+                        k, _, v = kv.partition("=")
+                        res["stats"][k] = int(v)
+            if rc != 0:
+                res["fails"].append(("crash", (err2 or "")[-500:], [], True))
+            return res
+
+        if replay_path:
+            jobs = []
+            sp = os.path.join(vlib.CACHE, "replay_sched_%d.txt" % os.getpid())
+            open(sp, "w").write(" ".join(map(str, rp["schedule"])))
+            rc, out, err2 = schedeng.run_workload(binary, rp["workload"], 1, 0, "replay:" + sp, trace=True)
+            for r in hist.parse(out):
+                for cls, msg in hist.check_sessions(r, cap):
+                    fails.append({"kind": cls, "detail": msg, "found": True, "capacity": cap, "workload": rp["workload"], "schedule": r.sched})
+            continue
+        for res in vlib.pmap(one, [seed * 1000 + i for i in range(nwl)]):
+            cov["sched_evaluations"] += res["n"]
+            cov["sched_steps"] += res["steps"]
+            cov["model_events"] += res["stats"].get("model_events", 0)
+            cov["enters"] += res["stats"].get("enters", 0)
+            cov["max_sessions_results"] += res["stats"].get("max_sessions", 0)
+            cov["cas_failures"] += res["stats"].get("cas_failures", 0)
+            if not sample:
+                sample = res["text"].splitlines()
+            for cls, msg, sch, found in res["fails"][:1]:
+                fails.append({"kind": cls, "detail": msg, "found": found, "capacity": cap, "workload": res["text"], "schedule": sch})
+    rc = 0
+    for i, f in enumerate(fails):
+        path = vlib.write_replay(prop, seed, 100 + i, dict(f, property=prop, replay_cmd="python3 tools/check.py C14 --replay <this file>"))
+        if rc == 0:
+            violation(prop, path, f.get("found", True))
+        rc = 1
+    if not lean["ok"]:
+        path = vlib.write_replay(prop, seed, 900, {"broken": "proof obligations of YakProps/C14.lean", "problems": lean["problems"]})
+        if rc == 0:
+            violation(prop, path, False)
+        rc = 1
+    extra = dict(cov)
+    extra.update({"evaluations": max(cov["sched_evaluations"], 1), "distinct_nontrivial": cov["sched_evaluations"],
+                  "rule": "one evaluation = one schedule of a generated enter/leave workload on the real thread_info_table (capacities %s); every trace is run through the Lean acceptor Session.step? and the history through the session oracle; non-trivial: at least one enter" % caps,
+                  "samples": [sample], "traces_validated_against_impl": cov["sched_evaluations"]})
+    vlib.write_evidence(prop, tier, seed, "proof", proof_coverage(prop, lean, extra), ASSUME_SCHED, time.time() - t0, len(fails) + (0 if lean["ok"] else 1))
+    if rc == 0:
+        print("OK C14: %d/%d theorems; %d scheduled runs, %d model events accepted, %d WARN_MAX_SESSIONS results" % (lean["discharged"], lean["obligations"], cov["sched_evaluations"], cov["model_events"], cov["max_sessions_results"]))
+    return rc
+
+
 def signature(prop, kind, detail, ops):
     """coarse identity of a failure, used only to match entries of known_findings.json"""
     last = ""
@@ -405,6 +496,8 @@ def main():
     seed = int(os.environ.get("VERIF_SEED", "1"))
     if a.prop in UNIT:
         sys.exit(check_unit(a.prop, a.tier, seed))
+    if a.prop == "C14":
+        sys.exit(check_c14(a.tier, seed, a.replay))
     if a.prop in SEQ and a.prop in SCHED and not a.replay:
         rc1 = check_seq(a.prop, a.tier, seed, None, extra_sched=True)
         sys.exit(rc1)
